@@ -1,6 +1,9 @@
 PROPS["C18"] = dict(
     jobs=[job("asan", "c18_safety", flavour="asan", cases={Q: 7500, T: 500000}),
-          job("bounds", "c18_safety", flavour="fast", cases={Q: 25000, T: 2500000})],
+          job("bounds", "c18_safety", flavour="fast", cases={Q: 25000, T: 2500000}),
+          # sustained audio traffic: the C16 direct histories, 2500 operations each (thousands of words through the transmit FIFO,
+          # all periods), under ASan+UBSan
+          job("audio-asan", "c16_btdmp", flavour="asan", cases={Q: 12, T: 400}, mode="direct", args={"ops": 2500, "prop": "C18"})],
     crash_is_violation=True,
     timeout={"quick": 3600, "thorough": 8 * 3600},
     rule="five workloads in rotation, every case in a forked child (64 cases per Teakra instance, case index journaled "
@@ -9,7 +12,7 @@ PROPS["C18"] = dict(
          "all-ones/zeros, 1-2000 cycles; mmio = writes/reads of documented and random offsets with interesting values through "
          "host and DSP paths interleaved with Run; dma = DMA/AHBM configuration fuzz over spaces, sizes (<= 2^20 elements), "
          "address high words, callbacks installed; host = in-contract API calls with extreme arguments; firmware = one of the four shipped tester firmwares (hwtest/*/data/cdc.bin) driven by random host commands, mailbox and semaphore traffic. Oracles: ASan+UBSan "
-         "(asan job), SharedMemory bounds observer, outcome classes, 25 s no-progress watchdog (confirmed by a second run). "
+         "(asan job; plus the audio-asan job: C16's direct Btdmp histories of 2500 operations, thousands of words through the transmit FIFO at all periods), SharedMemory bounds observer, outcome classes, 25 s no-progress watchdog (confirmed by a second run). "
          "distinct_nontrivial = distinct (workload, ending class, deliberate assertion reached) triples observed",
     floors={Q: {"cases_prog": 20000, "cases_mmio": 20000, "cases_dma": 20000, "cases_host": 20000, "cases_firmware": 20000, "ending_assert": 1000, "ending_unimplemented": 500},
             T: {"cases_prog": 1000000, "cases_mmio": 1000000, "cases_dma": 1000000, "cases_host": 1000000, "cases_firmware": 1000000, "ending_assert": 50000, "ending_unimplemented": 20000}},
